@@ -284,8 +284,8 @@ func init() {
 	// ---- fmt / errors
 	reg("fmt.Errorf", intrErrorf)
 	reg("fmt.Sprintf", intrSprintf)
-	reg("fmt.Sprint", func(in *Interp, fr *frame, a []Value) Value { return in.sprintLike(a[0].(Slice)) })
-	reg("fmt.Sprintln", func(in *Interp, fr *frame, a []Value) Value { return in.sprintLike(a[0].(Slice)) })
+	reg("fmt.Sprint", func(in *Interp, fr *frame, a []Value) Value { return in.sprintLike(fr, a[0].(Slice), false) })
+	reg("fmt.Sprintln", func(in *Interp, fr *frame, a []Value) Value { return in.sprintLike(fr, a[0].(Slice), true) })
 	for _, n := range []string{"fmt.Printf", "fmt.Println", "fmt.Print", "fmt.Fprintf", "fmt.Fprintln", "fmt.Fprint"} {
 		reg(n, func(in *Interp, fr *frame, a []Value) Value { return Tuple{mkInt(0), Iface{}} })
 	}
